@@ -371,6 +371,10 @@ async fn authenticate(conn: &mut tokio::net::TcpStream) -> Result<()> {
 
     let nmethods = buf[1] as usize;
     if nmethods == 0 {
+        // An empty method list offers nothing acceptable: refuse it like any other
+        // list without NO AUTHENTICATION (RFC 1928 section 3)
+        conn.write_all(&[SOCKS5_VERSION, AUTH_NOT_ACCEPTABLE])
+            .await?;
         return Err(AnyTlsError::Protocol(
             "No authentication methods provided".to_string(),
         ));
